@@ -923,10 +923,10 @@ theorem idp_exact (configured dns : Str) :
 
 /-- **ticker_within_cache.** For every ca.json CRL section that a CA accepts (`Config.Init`, `Validate`, the authority's
     defaulting, in that order) with publication enabled: the cache duration is positive, and the generator's period is
-    not longer than it — a list is regenerated before (or when) the previous one expires — and is positive as soon as
-    the cache duration is at least 3 ns. -/
+    positive (`time.NewTicker` never sees 0: D61, fixed by 057148c) and not longer than the cache duration — a list is
+    regenerated before (or when) the previous one expires. -/
 theorem ticker_within_cache (c : CRLCfg) (he : c.enabled = true) (d t : Int) (h : pipeline c = some (d, t)) :
-    0 < d ∧ 0 ≤ t ∧ t ≤ d ∧ (3 ≤ d → 0 < t) := by
+    0 < d ∧ 0 < t ∧ t ≤ d := by
   cases c with
   | mk en ca re =>
     simp only at he
@@ -935,29 +935,50 @@ theorem ticker_within_cache (c : CRLCfg) (he : c.enabled = true) (d t : Int) (h 
     | none =>
       cases re with
       | none =>
-        simp [pipeline, CRLCfg.init, CRLCfg.valid, CRLCfg.effective, CRLCfg.ticker, dayNs] at h
+        simp [pipeline, CRLCfg.init, CRLCfg.valid, CRLCfg.validOld, CRLCfg.effective, CRLCfg.ticker, dayNs] at h
         omega
       | some r =>
-        simp only [pipeline, CRLCfg.init, CRLCfg.valid, CRLCfg.effective, CRLCfg.ticker, dayNs, Option.isNone_none,
+        simp only [pipeline, CRLCfg.init, CRLCfg.valid, CRLCfg.validOld, CRLCfg.effective, CRLCfg.ticker, dayNs, Option.isNone_none,
           Bool.and_self, if_true, Bool.not_true, Bool.false_eq_true, if_false, Option.getD_some] at h
         by_cases hr : 0 < r <;> simp [hr] at h <;> omega
     | some d0 =>
       cases re with
       | none =>
-        simp only [pipeline, CRLCfg.init, CRLCfg.valid, CRLCfg.effective, CRLCfg.ticker, dayNs, Option.isNone_some,
+        simp only [pipeline, CRLCfg.init, CRLCfg.valid, CRLCfg.validOld, CRLCfg.effective, CRLCfg.ticker, dayNs, Option.isNone_some,
           Bool.and_false, Bool.false_eq_true, if_false, Bool.not_true] at h
         by_cases hd : d0 ≤ 0 <;> simp [hd] at h <;> omega
       | some r =>
-        simp only [pipeline, CRLCfg.init, CRLCfg.valid, CRLCfg.effective, CRLCfg.ticker, dayNs, Option.isNone_some,
+        simp only [pipeline, CRLCfg.init, CRLCfg.valid, CRLCfg.validOld, CRLCfg.effective, CRLCfg.ticker, dayNs, Option.isNone_some,
           Bool.and_false, Bool.false_eq_true, if_false, Bool.not_true] at h
         by_cases hd : d0 ≤ 0 <;> by_cases hr : 0 < r <;> simp [hd, hr] at h <;> omega
 
-/-- **tiny_cache_duration_accepted (D60).** A cache duration of 1 or 2 ns passes `Validate` with publication enabled
-    and gives the generator a period of 0, for which `time.NewTicker` panics in `startCRLGenerator`: the CA accepts
-    the configuration and then aborts during start-up (stage config observes the panic on the real authority). -/
-theorem tiny_cache_duration_accepted :
-    ∃ c : CRLCfg, c.enabled = true ∧ c.init.valid = true ∧ pipeline c = some (2, 0) :=
+/-- **tiny_cache_duration_accepted_historic (D61, fixed by 057148c).** Before the fix a cache duration of 1 or 2 ns passed
+    `Validate` with publication enabled and gave the generator a period of 0, for which `time.NewTicker` panics in
+    `startCRLGenerator`: the CA accepted the configuration and then aborted during start-up. -/
+theorem tiny_cache_duration_accepted_historic :
+    ∃ c : CRLCfg, c.enabled = true ∧ c.init.validOld = true ∧ pipelineOld c = some (2, 0) :=
   ⟨{ enabled := true, cache := some 2, renew := none }, by decide⟩
+
+/-- the repaired `Validate` only refuses more … -/
+theorem pipeline_sub_old (c : CRLCfg) (x : Int × Int) (h : pipeline c = some x) : pipelineOld c = some x := by
+  unfold pipeline at h
+  unfold pipelineOld
+  unfold CRLCfg.valid at h
+  cases hv : c.init.validOld <;> simp [hv] at h ⊢
+  exact h.2
+
+/-- … and exactly the configurations that made the generator's period 0 -/
+theorem pipeline_of_old (c : CRLCfg) (d t : Int) (h : pipelineOld c = some (d, t)) (ht : c.enabled = false ∨ 0 < t) :
+    pipeline c = some (d, t) := by
+  cases c with
+  | mk en ca re =>
+    cases en
+    · simp [pipeline, pipelineOld, CRLCfg.init, CRLCfg.valid, CRLCfg.validOld] at h ⊢
+      exact h
+    · have ht' : 0 < t := by rcases ht with h' | h'; simp at h'; exact h'
+      cases ca <;> cases re <;>
+        simp [pipeline, pipelineOld, CRLCfg.init, CRLCfg.valid, CRLCfg.validOld, CRLCfg.effective, CRLCfg.ticker, dayNs] at h ⊢ <;>
+        (try split at h) <;> (try split) <;> simp_all <;> omega
 
 /-! ## 5c. one process-wide CRL section (since 7329bb4): old and new authority on one database -/
 
